@@ -179,7 +179,9 @@ def run_case(ns, ctx, case):
                   features.add("shared-module")
               assign(host, name, "M", child, via)
           elif r < 0.75:
-              k = int(rng.integers(0, 4))
+              k = int(rng.integers(0, 4)) if rng.random() > 0.12 else int(rng.integers(10, 14))     # also containers with more than ten positions
+              if k >= 10:
+                  features.add("sequential-long")
               kids = []
               for _ in range(k):
                   if rng.random() < 0.3 and len(mods) > 1:
@@ -296,6 +298,12 @@ def run_case(ns, ctx, case):
         sub = reach(mid)
         ps = [o for o, _ in exp_params(mid)]
         try:
+            import contextlib
+            quiet = rng.random() < 0.25          # the same call issued while gradient mode is off: mode / flags / gradients are set all the same
+            if quiet:
+                features.add("action-under-no_grad")
+            a_ctx = ns.sg.no_grad() if quiet else contextlib.nullcontext()
+            a_ctx.__enter__()
             if a == "train":
                 mods[mid].train()
                 for s_ in sub:
@@ -321,12 +329,17 @@ def run_case(ns, ctx, case):
                 for o in ps:
                     params[o].grad = T(np.ones(params[o].shape, dtype=np.float32))
                     pmodel[o]["grad"] = "ones"
+            a_ctx.__exit__(None, None, None)
         except Exception as e:
+            try:
+                a_ctx.__exit__(None, None, None)
+            except Exception:
+                pass
             import traceback
             viol.append(V(f"action:{a}:raises", f"{a}() raised {type(e).__name__}", trail=trail, tb=traceback.format_exc()[-400:]))
             break
-        trail.append(f"m{mid}.{a}()")
-        observe(f"m{mid}.{a}()")
+        trail.append(f"m{mid}.{a}()" + (" under no_grad" if quiet else ""))
+        observe(f"m{mid}.{a}()" + (" under no_grad" if quiet else ""))
     # ---------------- Sequential forward order
     for mid in reach(root):
         if model[mid].kind == "seq" and not viol:
